@@ -100,6 +100,19 @@ def series(kind, n, seed):
             c[i, 1:5] = c[i - 1, 2]
             c[i, 5] = 0.0
         return c
+    elif kind == 'quietstart':
+        # a fresh listing / a feed that delivers volume only later: the series STARTS with a run of zero-volume candles (flat at
+        # the first price in half of the cases), trading begins afterwards. Whatever is decided from `the` volume column as a
+        # whole differs between a prefix inside the run and the full series
+        c = gen.candles({'seed': seed, 'n': n, 'vol': 0.006, 'start': 100.0, 'zero_vol_p': 0.0})
+        run = min(max(2, n - 3), rng.choice([30, 50]))
+        c[:run, 5] = 0.0
+        if rng.random() < 0.5:
+            c[:run, 1:5] = c[0, 1]
+            c[run, 1] = c[0, 1]
+            c[run, 3] = max(c[run, 3], c[run, 1])
+            c[run, 4] = min(c[run, 4], c[run, 1])
+        return c
     elif kind == 'ties':
         # an ordinary market in which, now and then, a candle repeats the previous one exactly (same OHLC, fresh volume) or
         # closes exactly where the previous one closed: rules that compare a candle with its neighbour hit their `equal` branch
